@@ -24,6 +24,9 @@ def main():
     ap.add_argument("-v", action="store_true")
     a = ap.parse_args()
     seed = int(os.environ.get("VERIF_SEED", "0") or 0)
+    if not a.replay:
+        from symx import stubs
+        stubs.preinstall()
     from symx import run
     if a.prop == "selftest":
         from symx import selftest
